@@ -27,6 +27,12 @@ STALE = [
     ('schedule', 'unschedule', 'schedule', 'deactivate', 'complete'),
     ('schedule', 'unschedule', 'schedule', 'started', 'deactivate'),
 ]
+# the worker's report overtakes the driver's CALL schedule_job for the same attempt
+EARLY = [
+    ('early_complete', 'schedule'),
+    ('early_started', 'schedule', 'complete'),
+    ('early_complete', 'schedule', 'deactivate'),
+]
 KNOWN = 'uncommitted-child-readied-by-parent-completion'
 
 ASSUMPTIONS = [
@@ -66,6 +72,7 @@ def standard_run(R, pid, asserts, default_class, deep=DEEP, quick_alphabet=CORE,
                          depth=2, asserts=asserts, classify=classify, extra_seqs=(), commit=commit, prefix_ops=('schedule',),
                          workers=int(os.environ.get('VERIF_WORKERS', '12')))
     stale_pass(R, pid, asserts, classify, commit)
+    stale_pass(R, pid, asserts, classify, commit, seqs=EARLY, instances=1)
     if not quick:
         # second pass: every sequence of THREE operation kinds over the core alphabet on the smaller world
         small = model.Sizes(J=3, G=2, U=2, I=1, A=2, T=2, IC=1)
@@ -74,10 +81,10 @@ def standard_run(R, pid, asserts, default_class, deep=DEEP, quick_alphabet=CORE,
         R.bounds['second_pass'] = {'sizes': small.as_dict(), 'bmc_depth': 3, 'alphabet': quick_alphabet}
 
 
-def stale_pass(R, pid, asserts, classify, commit=True, seqs=STALE):
+def stale_pass(R, pid, asserts, classify, commit=True, seqs=STALE, instances=2):
     """named scenarios on TWO instances: an attempt is withdrawn, the job runs again elsewhere, then something happens to
     the first instance (reports and deactivations that concern a stale attempt of a job whose current attempt is elsewhere)"""
-    two = model.Sizes(J=2, G=2, U=2, I=2, A=2, T=2, IC=1)
+    two = model.Sizes(J=2, G=2, U=2, I=instances, A=2, T=2, IC=1)
     run_bmc_property(R, pid, two, n1=2, g1=1, alphabet=[], depth=0, asserts=asserts, classify=classify, extra_seqs=seqs,
                      commit=commit, workers=int(os.environ.get('VERIF_WORKERS', '12')))
 
